@@ -680,6 +680,45 @@ func famPattern(o *Out, r R, tier string) {
 	for _, v := range append(append(append([]string{}, originsValidSecure...), originsValidInsecure...), originsPSL...) {
 		emit("valid", "corpus", v)
 	}
+	// non-ASCII hosts: every single byte 0x80-0xFF, and code points of every UTF-8 length, at the start, in the
+	// middle and at the end of a label (a Unicode host is a documented non-form, whatever the script)
+	for bv := 0x80; bv <= 0xFF; bv++ {
+		c := string([]byte{byte(bv)})
+		emit("defect", "high-byte-host", "https://"+c+".example.com")
+		emit("defect", "high-byte-host", "https://exa"+c+"mple.com")
+		emit("defect", "high-byte-host", "https://*.example"+c+".com:8443")
+	}
+	nrunes := 600
+	if tier == "thorough" {
+		nrunes = 20000
+	}
+	for k := 0; k < nrunes; k++ {
+		var cp rune
+		switch k % 4 {
+		case 0:
+			cp = rune(0x80 + r.Intn(0x800-0x80))
+		case 1, 2:
+			cp = rune(0x800 + r.Intn(0x10000-0x800))
+			if cp >= 0xD800 && cp <= 0xDFFF {
+				cp = 0x4E2D
+			}
+		default:
+			cp = rune(0x10000 + r.Intn(0x100000))
+		}
+		c := string(cp)
+		switch r.Intn(5) {
+		case 0:
+			emit("defect", "unicode-host", "https://"+c+".example.com")
+		case 1:
+			emit("defect", "unicode-host", "https://shop"+c+".example.com"+r.pick([]string{"", ":8443", ":*"}))
+		case 2:
+			emit("defect", "unicode-host", "http://*."+c+".example.com")
+		case 3:
+			emit("defect", "unicode-host", r.pick([]string{"connector", "https", "http"})+"://"+c)
+		default:
+			emit("defect", "unicode-host", "https://a."+c+c+".example.org.")
+		}
+	}
 	ipv4s := []string{"127.0.0.1", "10.0.0.1", "255.255.255.255", "0.0.0.0", "1.2.3.4", "192.168.1.254"}
 	ipv6s := []string{"[::1]", "[::]", "[2001:db8::1]", "[1:2:3:4:5:6:7:8]", "[fe80::1]", "[2001:db8:0:1:1:1:1:1]", "[1::8]", "[2001:db8::]"}
 	schemes := []string{"https", "http", "connector", "a", "x+y", "x-y.z", "h2", maxScheme,
